@@ -5,11 +5,25 @@ Protocol (one self-contained history per line, a fresh simulation each time):
     sin <defUnit> <absent|dispatch|divide> <kind>[:<opt>...] <count> <op> <op> ...
         kind: num | int | bool | date | str | enum     (items of the last four travel as integer codes)
         opt : n neutralised variable | e<Y,M,D> the variable's `end` | d every array forced to the disk storage
-              | b the leading S ops are given at once, as a situation document, to SimulationBuilder
+              | h the variable belongs to a GROUP entity (<count> households; the simulation has <count>+1 persons)
+              | b the leading S ops are ONE situation document (keys in the order written) given to
+                  SimulationBuilder.build_from_entities, which consumes it in its own order (shortest period first)
+              | v the leading S ops are ONE short-form document {variable: {period: values}} given to
+                  SimulationBuilder.build_from_dict -> build_from_variables: consumed in document order
+                (b, v: the construction succeeds or fails as a whole: all `ok` or all `ERR`; after a failure the
+                 history continues on a fresh simulation)
+              | u (with b or v, a document of ONE entry) the value is written without period and the period is the
+                  builder's default period — what the YAML test runner does with a test's `period:` and `input:`
         S|<period>|<mode>|<v1;v2;...>   Simulation.set_input              -> ok | ERR
         H|<period>|<mode>|<v1;v2;...>   Holder.set_input directly         -> ok | ERR
         G|<period>[|<spelling>]         Simulation.get_array              -> v1;v2;... | none
         A|<period>[|<spelling>]         Simulation.calculate_add          -> v1;v2;... | empty | ERR
+        C|<period>[|<spelling>]         Simulation.calculate (one period) -> v1;v2;... | ERR
+        X                               the simulation is replaced by simulation.clone()  -> ok
+        Z|<period>[|<spelling>]         calculate_add, then the harness overwrites THE ARRAY IT GOT BACK in place (+1);
+                                        the answer is the value before that                 -> as A
+        M|<k>                           the harness overwrites the caller's object number k in place (+1 on every item)
+                                        after the calls that received it                    -> ok
         K                               every known period + value        -> [p=v1;..&p=...] (sorted)
 
 `<mode>` = `<container>[@<k>][~<spelling>]`. Containers, i.e. how the values reach the real code: f / i lists
@@ -24,11 +38,16 @@ ignores the mode: an argument is an input, never scratch space. After every `set
 the caller's object with a snapshot taken before the call; when it changed the answer is `ok!<content now>` /
 `ERR!<content now>`, which the oracle reports as `caller-array-mutated`.
 
-The harness itself NEVER mutates an object it has passed, nor an array it got back: at HEAD `_to_array` hands
-on an array that already has the variable's dtype and `_set` stores it, so for the dispatch rule and for
-variables without rule the stored arrays ARE the caller's object (and all pieces share one array). What a
-later mutation by the caller does to the stored values is outside the statement (it speaks of values that
-were set), so the check neither exercises nor judges it.
+Aliasing. At HEAD `_to_array` hands on an array that already has the variable's dtype and `_set` stores it,
+so for the dispatch rule and for variables without rule the stored arrays ARE the caller's object when it
+has exactly the variable's dtype, and with both rules all pieces written by one call share one array, which
+is also what `get_array` / `calculate` hand out. What a later mutation of such an array does is outside
+the statement (it speaks of values that were set) and is neither exercised nor judged. Exercised, because
+the code makes fresh arrays there and a change that stops doing so silently corrupts values that were set:
+`M` — the caller overwrites its own object after a DIVIDE input (every container), or after a dispatch input
+given in a container `_to_array` must convert (lists, float64 / int64 arrays): the stored pieces must not
+follow; `Z` — the caller overwrites the array `calculate_add` returned (always a fresh sum, also over a
+single piece): the stored pieces must not follow.
 
 Values are exact rationals; the generator keeps every amount, partial sum and share on the quarter-unit
 lattice below 2**20, where float32 arithmetic is exact (DESIGN section 4).
@@ -88,11 +107,15 @@ def _parse_op(tok):
     if f[0] in ("S", "H") and len(f) == 4:
         p, v = _parse_period(f[1]), _parse_vec(f[3])
         return None if p is None or v is None else (f[0], p, f[2], v)
-    if f[0] in ("G", "A") and len(f) in (2, 3):
+    if f[0] == "M" and len(f) == 2 and _NAT.match(f[1]):
+        return ("M", f[1])
+    if f[0] in ("G", "A", "C", "Z") and len(f) in (2, 3):
         p = _parse_period(f[1])
         return None if p is None else (f[0], p, f[2] if len(f) == 3 else "p")
     if f == ["K"]:
         return ("K",)
+    if f == ["X"]:
+        return ("X",)
     return None
 
 
@@ -101,9 +124,9 @@ def parse_kind(tok):
     f = tok.split(":")
     if f[0] not in KINDS:
         return None
-    o = {"n": False, "d": False, "b": False, "end": None}
+    o = {"n": False, "d": False, "b": False, "v": False, "h": False, "u": False, "end": None}
     for x in f[1:]:
-        if x in ("n", "d", "b"):
+        if x in ("n", "d", "b", "v", "h", "u"):
             o[x] = True
         elif x.startswith("e"):
             d = x[1:].split(",")
@@ -155,7 +178,8 @@ def _tbs():
     if _TBS is None:
         from openfisca_core import entities, indexed_enums, taxbenefitsystems
         person = entities.Entity("person", "persons", "", "")
-        _TBS = taxbenefitsystems.TaxBenefitSystem([person])
+        household = entities.GroupEntity("household", "households", "", "", roles=[{"key": "member", "plural": "members"}])
+        _TBS = taxbenefitsystems.TaxBenefitSystem([person, household])
         _ENUM = indexed_enums.Enum("E5", [(f"m{i}", f"member {i}") for i in range(ENUM_SIZE)])
     return _TBS
 
@@ -167,10 +191,10 @@ def _variable(du, rule, kind, opts) -> str:
     from openfisca_core.periods import DateUnit
     tbs = _tbs()
     end = opts["end"]
-    name = f"{rule}_{du}_{kind}" + ("_n" if opts["n"] else "") + (f"_e{end[0]}_{end[1]}_{end[2]}" if end else "")
+    name = f"{rule}_{du}_{kind}" + ("_n" if opts["n"] else "") + ("_h" if opts["h"] else "") + (f"_e{end[0]}_{end[1]}_{end[2]}" if end else "")
     if name not in tbs.variables:
         vt = {"num": float, "int": int, "bool": bool, "date": datetime.date, "str": str, "enum": _ENUM}[kind]
-        attrs = dict(value_type=vt, entity=tbs.person_entity, definition_period=DateUnit(du))
+        attrs = dict(value_type=vt, entity=tbs.group_entities[0] if opts["h"] else tbs.person_entity, definition_period=DateUnit(du))
         if kind == "enum":
             attrs.update(value_type=__import__("openfisca_core.indexed_enums", fromlist=["Enum"]).Enum,
                          possible_values=_ENUM, default_value=list(_ENUM)[0])
@@ -302,15 +326,56 @@ def _key(p):
     return (UNIT_IDX[p[0]], p[1][0], p[1][1], p[1][2], p[2])
 
 
-def _build_through_builder(name, count, sets):
-    """the leading inputs given at once, as a situation document, to SimulationBuilder (buffered, then
-    consumed by `finalize_variables_init`)"""
-    from openfisca_core import simulations
-    persons = {}
+def _num(x: Fraction):
+    return float(x) if x.denominator != 1 else int(x)
+
+
+def _group_situation(count, inputs=None):
+    """<count> households, <count>+1 persons (the last household has two members)"""
+    persons = {f"p{i}": {} for i in range(count + 1)}
+    households = {}
     for i in range(count):
-        persons[f"p{i}"] = {name: {str(_real_period(op[1])): (float(op[3][i]) if op[3][i].denominator != 1 else int(op[3][i]))
-                                   for op in sets}}
-    return simulations.SimulationBuilder().build_from_entities(_tbs(), {"persons": persons})
+        households[f"h{i}"] = {"members": [f"p{i}"] + ([f"p{count}"] if i == count - 1 else [])}
+        if inputs:
+            households[f"h{i}"].update(inputs(i))
+    return {"persons": persons, "households": households}
+
+
+def _build_through_builder(name, count, sets, group=False, undated=False):
+    """the leading inputs given at once, as a situation document (keys in the order written), to
+    SimulationBuilder (buffered, then consumed by `finalize_variables_init`)"""
+    from openfisca_core import simulations
+    undated = undated and len(sets) == 1
+
+    def inputs(i):
+        if undated:
+            return {name: _num(sets[0][3][i])}
+        return {name: {str(_real_period(op[1])): _num(op[3][i]) for op in sets}}
+
+    if group:
+        doc = _group_situation(count, inputs)
+    else:
+        doc = {"persons": {f"p{i}": inputs(i) for i in range(count)}}
+    builder = simulations.SimulationBuilder()
+    if undated:
+        builder.set_default_period(str(_real_period(sets[0][1])))
+    return builder.build_from_dict(_tbs(), doc)
+
+
+def _build_from_variables(name, count, sets, undated=False):
+    """the short form `{variable: {period: [values]}}` (what a YAML test's `input:` is when it names no
+    entity): `build_from_dict` -> `build_from_variables`, inputs set in document order"""
+    from openfisca_core import simulations
+    builder = simulations.SimulationBuilder()
+    if undated and len(sets) == 1:
+        builder.set_default_period(str(_real_period(sets[0][1])))
+        doc = {name: [_num(x) for x in sets[0][3]]}
+    else:
+        doc = {name: {str(_real_period(op[1])): [_num(x) for x in op[3]] for op in sets}}
+    sim = builder.build_from_dict(_tbs(), doc)
+    if sim.persons.count != count:
+        raise ValueError("count")
+    return sim
 
 
 def impl(case: Case) -> str:
@@ -324,15 +389,20 @@ def impl(case: Case) -> str:
     out = []
     sim = None
     start = 0
-    if opts["b"]:
+    if opts["b"] or opts["v"]:
         while start < len(ops) and ops[start][0] == "S":
             start += 1
         try:
-            sim = _build_through_builder(name, count, ops[:start])
+            if opts["b"]:
+                sim = _build_through_builder(name, count, ops[:start], opts["h"], opts["u"])
+            else:
+                sim = _build_from_variables(name, count, ops[:start], opts["u"])
             out += ["ok"] * start
         except Exception:
             sim = None
             out += ["ERR"] * start
+    if sim is None and opts["h"]:
+        sim = simulations.SimulationBuilder().build_from_entities(_tbs(), _group_situation(count))
     if sim is None:
         sim = simulations.SimulationBuilder().build_default_simulation(_tbs(), count)
     if opts["d"]:                              # every array goes to the disk storage
@@ -369,13 +439,32 @@ def impl(case: Case) -> str:
                     out.append("none" if a is None else _show_arr(a, kind))
                 except Exception:
                     out.append("ERR")
-            elif op[0] == "A":
+            elif op[0] in ("A", "Z"):
                 try:
                     a = sim.calculate_add(name, _spelled(op[1], op[2]))
                 except Exception:
                     out.append("ERR")
                     continue
                 out.append("empty" if isinstance(a, int) else _show_arr(a, kind))
+                if op[0] == "Z" and not isinstance(a, int) and kind in ("num", "int"):
+                    a += 1                         # the caller does what it likes with what it got back
+            elif op[0] == "M":
+                arg = objects.get(op[1])
+                if kind in ("num", "int"):
+                    import numpy
+                    if isinstance(arg, numpy.ndarray) and arg.ndim >= 1:
+                        arg += 1
+                    elif isinstance(arg, list):
+                        arg[:] = [x + 1 for x in arg]
+                out.append("ok")
+            elif op[0] == "C":
+                try:
+                    out.append(_show_arr(sim.calculate(name, _spelled(op[1], op[2])), kind))
+                except Exception:
+                    out.append("ERR")
+            elif op[0] == "X":
+                sim = sim.clone()
+                out.append("ok")
             else:
                 holder = sim.get_holder(name)
                 items = []
@@ -411,6 +500,17 @@ def tiles(p, du):
     """the definition-period-long pieces of `p` when `p` is tiled exactly by `du` (day / month /
     year, start aligned on `du`), else None. Pure datetime arithmetic."""
     u, s, n = p
+    if du == "day" and u in ("week", "weekday") and n >= 1 and _valid(s) and s[0] >= 1:
+        # a week (any first day) is exactly seven days; `weekday` periods are day periods by another name
+        try:
+            start = dt.date(*s)
+            stop = start + dt.timedelta(days=7 * n if u == "week" else n)
+        except (ValueError, OverflowError):
+            return None
+        if stop.year > 9990:
+            return None
+        return [("day", ((start + dt.timedelta(days=i)).year, (start + dt.timedelta(days=i)).month, (start + dt.timedelta(days=i)).day), 1)
+                for i in range((stop - start).days)]
     if u not in ORDER or du not in ORDER or ORDER[u] < ORDER[du] or n < 1 or not _valid(s) or s[0] < 1:
         return None
     if u in ("month", "year") and s[2] != 1:
@@ -483,25 +583,57 @@ def oracle(case: Case, out: str):
         return ("protocol", f"{len(answers)} answers for {len(ops)} operations")
     state = {}            # store as last observed (fresh holder: empty); None = not observed
     promised = {}         # long period -> amount accepted by the divide rule
-    if opts["b"] and rule == "divide" and kind == "num" and not opts["n"]:
-        # inputs consumed by the builder in one go: no snapshot in between, but every accepted amount must
-        # still be what the sum over its period returns
-        for op, ans in zip(ops, answers):
-            if op[0] != "S":
-                break
-            if ans == "ok" and tiles(op[1], du) is not None and len(op[3]) == count and not (
-                    opts["end"] and tuple(op[1][1]) > tuple(opts["end"])):
-                promised[ptok(op[1])] = (op[3], False)
+    csince = {}           # promised long period -> {piece: what `calculate` answered for it AFTER the amount was accepted}
+    ndoc = 0
+    if opts["b"] or opts["v"]:
+        # inputs consumed in one go (in the builder's order / in document order): no snapshot in between, and
+        # the construction succeeds or fails as a whole. What the statement says about it: every amount
+        # of an accepted document is what the sum over its period returns.
+        while ndoc < len(ops) and ops[ndoc][0] == "S":
+            ndoc += 1
+        if len(set(answers[:ndoc])) > 1:
+            return ("protocol", "a document was neither accepted nor refused as a whole")
+        if rule == "divide" and kind == "num" and not opts["n"]:
+            for op, ans in zip(ops[:ndoc], answers):
+                if ans == "ok" and tiles(op[1], du) is not None and len(op[3]) == count and not (
+                        opts["end"] and tuple(op[1][1]) > tuple(opts["end"])):
+                    promised[ptok(op[1])] = (op[3], False)
+        state = None if ndoc and answers[0] == "ok" else {}
     for idx, (op, ans) in enumerate(zip(ops, answers)):
+        if idx < ndoc:
+            continue
         if op[0] == "K":
             state = _parse_snapshot(ans)
             lost = [t for t, v in (state or {}).items() if v is None]
             if lost:
                 return ("known-period-without-value", f"{lost[0]} is listed among the known periods but get_array returns nothing for it")
             continue
-        if op[0] == "G":
+        if op[0] in ("G", "X"):
+            continue          # a clone starts with the values of the original (the ops that follow act on the clone)
+        if op[0] == "M":
+            # the caller overwrote its own object: the values that were set stay what they were
+            after = _parse_snapshot(answers[idx + 1]) if idx + 1 < len(ops) and ops[idx + 1][0] == "K" else None
+            if state is not None and after is not None and not opts["n"]:
+                for t, v in state.items():
+                    if after.get(t) != v:
+                        return ("stored-value-follows-callers-object", f"{t} held {vtok(v)}; after the caller overwrote the object it had "
+                                f"passed to set_input, it holds {after.get(t)}")
             continue
-        if op[0] == "A":
+        if op[0] == "C":
+            if ans != "ERR":
+                if kind in ("num", "int"):
+                    for tokP in promised:
+                        csince.setdefault(tokP, {})[ptok(op[1])] = [Fraction(x) for x in ans.split(";")]
+                state = None      # an unknown piece was cached with the default
+            continue
+        if op[0] == "Z" and ans not in ("ERR", "empty"):
+            after = _parse_snapshot(answers[idx + 1]) if idx + 1 < len(ops) and ops[idx + 1][0] == "K" else None
+            if state is not None and after is not None and not opts["n"]:
+                for t, v in state.items():
+                    if after.get(t) != v:
+                        return ("stored-value-follows-returned-sum", f"{t} held {vtok(v)}; after the caller overwrote the array "
+                                f"calculate_add returned for {ptok(op[1])}, it holds {after.get(t)}")
+        if op[0] in ("A", "Z"):
             want = promised.get(ptok(op[1]))
             if want is not None:
                 got = None if ans in ("ERR", "empty") else [Fraction(x) for x in ans.split(";")]
@@ -553,6 +685,8 @@ def oracle(case: Case, out: str):
         ksum = [sum((before[t][i] for t in known), Fraction(0)) for i in range(count)]
         cls = "int-input" if mode in INT_MODES else "float-input"
         if not unknown:
+            if kind == "num" and not all(_on_lattice(before[t]) for t in known):
+                continue          # outside the numeric policy: the total of rounded shares is not the total
             if amount == ksum:
                 if ans != "ok":
                     return (f"divide-refused:{cls}", f"{vtok(amount)} ({mode}) on {ptok(p)} equals the total already set for all "
@@ -591,6 +725,16 @@ def oracle(case: Case, out: str):
         tot = [sum((after[t][i] for t in toks), Fraction(0)) for i in range(count)]
         if tot != amount:
             return ("divide-not-conserved", f"pieces of {ptok(p)} sum to {vtok(tot)}, {vtok(amount)} was set")
+    # the sum taken by hand: `calculate` on every piece of a period whose amount was accepted
+    for tokP, (amount, lossy) in promised.items():
+        toks = [ptok(q) for q in tiles(_parse_period(tokP), du)]
+        cvals = csince.get(tokP, {})
+        if all(t in cvals for t in toks):
+            tot = [sum((cvals[t][i] for t in toks), Fraction(0)) for i in range(count)]
+            if tot != amount:
+                if kind == "int" and lossy:
+                    return ("divide-int-remainder-lost", f"int variable: {vtok(amount)} set on {tokP}, calculate over its pieces sums to {vtok(tot)}")
+                return ("calculate-sum-not-amount", f"{vtok(amount)} set on {tokP}, calculate over its {len(toks)} pieces sums to {vtok(tot)}")
     return None
 
 
@@ -704,17 +848,20 @@ def build_line(du, rule, kind, count, steps, claimed=True, tags=()):
     for s in steps:
         if s[0] in ("S", "H"):
             toks.append(f"{s[0]}|{ptok(s[1])}|{s[2]}|{vtok(s[3])}")
-        elif s[0] in ("G", "A"):
+        elif s[0] in ("G", "A", "C", "Z"):
             toks.append(f"{s[0]}|{ptok(s[1])}" + (f"|{s[2]}" if len(s) > 2 and s[2] != "p" else ""))
+        elif s[0] == "M":
+            toks.append(f"M|{s[1]}")
         else:
-            toks.append("K")
+            toks.append(s[0])
     sets = [s for s in steps if s[0] in ("S", "H")]
     modes = ({"in:" + s[2].partition("~")[0].partition("@")[0] for s in sets}
              | {"reused-object" for s in sets if "@" in s[2]}
              | {"period-as:" + s[2].partition("~")[2] for s in sets if "~" in s[2]}
              | {"entry:holder" for s in sets if s[0] == "H"})
     k, _, o = kind.partition(":")
-    otags = tuple("opt:" + (x if x in ("n", "d", "b") else "end") for x in o.split(":") if x)
+    otags = tuple("opt:" + (x if x in ("n", "d", "b", "v", "h", "u") else "end") for x in o.split(":") if x)
+    otags += tuple(sorted({"op:" + s[0] for s in steps if s[0] in ("C", "X", "M", "Z")}))
     return Case(line=" ".join(["sin", du, rule, kind, str(count), *toks]), claimed=claimed,
                 tags=(du, rule, k, f"n{count}") + otags + tuple(sorted(modes)) + tuple(tags))
 
@@ -731,7 +878,7 @@ def decorate(rng: random.Random, du, kind, count, steps, entries=True):
                 mode = rng.choice(["s", "x", "X"])
             sp = rng.choice(["", "", "~s", "~s", "~i"])
             out.append((entry, s[1], mode + sp, s[3]))
-        elif s[0] in ("G", "A"):
+        elif s[0] in ("G", "A", "C", "Z"):
             out.append((s[0], s[1], rng.choice(["p", "s", "s", "i"])))
         else:
             out.append(s)
@@ -818,16 +965,45 @@ def history(rng: random.Random, tier: str):
         if rng.random() < 0.3:
             steps.append(("G", subs[rng.randrange(n)]))
             steps.append(("G", (du, addm_t(subs[-1][1], du, 1), 1)))
+        if rng.random() < 0.2:
+            steps = with_overwritten_argument(rng, rule, kind, steps)
+        if rng.random() < 0.1:
+            steps += [("K",), ("Z", subs[rng.randrange(n)]), ("K",)]      # a sum over ONE piece is a fresh array too
         for L in dict.fromkeys(longs):
-            steps.append(("A", L))
+            if rng.random() < 0.25:
+                steps += [("K",), ("Z", L)]          # the caller overwrites the sum it got back
+            else:
+                steps.append(("A", L))
         steps.append(("K",))
         if rng.random() < 0.5:
             steps = decorate(rng, du, kind, count, steps)
         kopt = kind
         if n <= 40 and rng.random() < 0.04:
             kopt += ":d"                      # every array forced to the disk storage
+        elif n <= 62 and rng.random() < 0.05:
+            kopt += ":h"                      # a household variable (the simulation has one person more)
         out.append(build_line(du, rule, kopt, count, steps, tags=tags + [oname]))
     return out
+
+
+def _fresh_copy_made(rule, kind, mode):
+    """does the code at HEAD keep the caller's object out of the store? divide: always (the shares are a new
+    array); otherwise only when `_to_array` must convert the container"""
+    exact = "j" if kind == "int" else "g"
+    return rule == "divide" or mode in ("f", "i") or (mode in ("F", "I", "g", "j") and mode != exact)
+
+
+def with_overwritten_argument(rng, rule, kind, steps):
+    """one of the inputs is given as the caller's object number 7, which the caller overwrites in place right
+    after the store was read back: the next read must show the same values"""
+    idx = [i for i, st in enumerate(steps) if st[0] in ("S", "H") and "@" not in st[2] and "~" not in st[2]
+           and st[2] in ("f", "i", "F", "I", "g", "j") and _fresh_copy_made(rule, kind, st[2])
+           and i + 1 < len(steps) and steps[i + 1][0] == "K"]
+    if not idx:
+        return steps
+    i = rng.choice(idx)
+    st = steps[i]
+    return steps[:i] + [(st[0], st[1], st[2] + "@7", st[3]), ("K",), ("M", "7"), ("K",)] + steps[i + 2:]
 
 
 def reuse_history(rng: random.Random, tier: str):
@@ -875,9 +1051,11 @@ def reuse_history(rng: random.Random, tier: str):
     for L in order:
         steps.append(("S", L, mode + "@1", amount))
         steps.append(("K",))
+    if _fresh_copy_made(rule, kind, mode) and rng.random() < 0.5:
+        steps += [("M", "1"), ("K",)]              # the caller is done with its object and overwrites it
     for L in periods_:
-        steps.append(("A", L))
-    steps.append(("K",))
+        steps.append(("Z" if rng.random() < 0.3 else "A", L))
+        steps.append(("K",))
     return build_line(du, rule, kind, count, steps,
                       tags=(f"{P[0]}>{du}", "reuse", "host-first" if order[0] == periods_[host] else "host-later"))
 
@@ -980,14 +1158,32 @@ def _builder_key(p):
     return (len(tiles(p, "day")), w)
 
 
+def alias_period(P, du):
+    """another period with exactly the same pieces: year Y = month:Y-01:12, month = day:...:<28..31>, ..."""
+    sub = tiles(P, du)
+    if du == "day" and P[0] != "day" and len(sub) <= 800:
+        return ("day", P[1], len(sub))
+    if P[0] == "year" and du == "month" and P[2] >= 2:
+        return ("month", P[1], 12 * P[2])
+    return None
+
+
+def _doc_period(P):
+    """a document names a period by its text, and the text of twelve months IS the text of the year"""
+    return ("year", P[1], 1) if P[0] == "month" and P[2] == 12 else P
+
+
 def builder_history(rng: random.Random):
-    """the inputs of a situation document, buffered by SimulationBuilder and consumed by
-    `finalize_variables_init` (shortest period first): consistent inputs only, written in that order"""
+    """the inputs of ONE situation document, buffered by SimulationBuilder and consumed by
+    `finalize_variables_init` shortest period first — whatever the order of the keys in the document
+    (year before / after / between its months). Amounts are chosen against the builder's order; one
+    document in six carries the same pieces under two spellings (year:2018 and month:2018-01:12) with equal
+    (accepted) or different (refused: the whole construction fails) amounts. Also on a group entity."""
     du = rng.choice(["day", "month", "month", "year"])
     rule = "divide" if rng.random() < 0.7 else "dispatch"
     count = rng.choice([1, 2, 3])
     while True:
-        P = long_period(rng, du, "quick")
+        P = _doc_period(long_period(rng, du, "quick"))
         subs = tiles(P, du)
         if len(subs) <= 60 and 1000 <= P[1][0] <= 9000:
             break
@@ -1005,7 +1201,7 @@ def builder_history(rng: random.Random):
     calls = [(q, [Fraction(rng.randint(0, 40)) for _ in range(count)]) for q in pre]
     longs = {P}
     if rng.random() < 0.5:
-        longs.add(related_period(rng, du, P, subs))
+        longs.add(_doc_period(related_period(rng, du, P, subs)))
     for L in sorted(longs, key=_builder_key):
         calls.sort(key=lambda c: _builder_key(c[0]))
         sim = simulate(du, rule, "num", count, live(calls))
@@ -1020,9 +1216,216 @@ def builder_history(rng: random.Random):
         else:
             amt = [ksum[i] + len(unknown) * Fraction(rng.randint(0, 24), rng.choice([1, 1, 2])) for i in range(count)]
         calls.append((L, amt))
-    calls.sort(key=lambda c: _builder_key(c[0]))           # Python's sort is stable, like the builder's
+    tags = ["builder"]
+    al = alias_period(P, du)
+    if al is not None and len(longs) == 1 and P in dict(calls) and rng.random() < 0.6 and len(calls) == len({c[0] for c in calls}):
+        # the same pieces under another spelling: consumed before or after P (smaller weight first)
+        amt = dict(calls)[P]
+        if rng.random() < 0.5 or rule == "dispatch":
+            calls.append((al, list(amt)))
+            tags.append("alias:same")
+        else:
+            bad = list(amt)
+            bad[rng.randrange(count)] += rng.choice([1, -1, 12])
+            calls.append((al, bad))
+            tags.append("alias:contradiction")
+            longs = set()                     # the construction fails: nothing to sum
+    if len({c[0] for c in calls}) != len(calls):
+        calls = list({c[0]: c for c in calls}.values())      # a document has one value per period
+    in_order = sorted(calls, key=lambda c: _builder_key(c[0]))
+    rng.shuffle(calls)                                       # the order of the keys in the document
+    if simulate(du, rule, "num", count, sorted(live(calls), key=lambda c: _builder_key(c[0]))) is None:
+        calls = in_order          # periods of equal length met in another order: a share would leave the lattice
+    if simulate(du, rule, "num", count, sorted(live(calls), key=lambda c: _builder_key(c[0]))) is None:
+        calls = [(P, [Fraction(len(subs) * rng.randint(0, 9))] * count)]      # (never met: every share above is on the lattice)
+        longs = {P}
+    order = [c[0] for c in calls]
+    first_long = min((i for i, q in enumerate(order) if q[0] != du or q[2] != 1), default=0)
+    tags.append("doc:long-first" if first_long == 0 and len(calls) > 1 else "doc:long-later")
     steps = [("S", q, "f", v) for q, v in calls] + [("K",)] + [("A", L) for L in sorted(longs, key=_builder_key)] + [("K",)]
-    return build_line(du, rule, "num:b" + (f":e{e.year},{e.month},{e.day}" if e else ""), count, steps, tags=("builder",))
+    kopt = "num:b" + (":h" if rng.random() < 0.25 else "") + (f":e{e.year},{e.month},{e.day}" if e else "")
+    return build_line(du, rule, kopt, count, steps, tags=tags)
+
+
+def vars_history(rng: random.Random):
+    """ONE short-form document `{variable: {period: [values]}}` -> `build_from_variables`: the inputs reach
+    `Simulation.set_input` in the order of the keys. Pieces first and the long period last is accepted; the
+    long period first and then one of its pieces is accepted only when the piece repeats its share."""
+    du = rng.choice(["day", "month", "month", "year"])
+    count = rng.choice([1, 2, 3])
+    rule = "divide" if rng.random() < 0.75 else "dispatch"
+    while True:
+        P = _doc_period(long_period(rng, du, "quick"))
+        subs = tiles(P, du)
+        if len(subs) <= 60 and 1000 <= P[1][0] <= 9000:
+            break
+    n = len(subs)
+    k = min(n - 1, rng.choice([0, 1, 2, 3])) if n > 1 else 0
+    pre = rng.sample(subs, k)
+    calls = [(q, [Fraction(rng.randint(0, 40)) for _ in range(count)]) for q in pre]
+    ksum = [sum((v[i] for _, v in calls), Fraction(0)) for i in range(count)]
+    share = [Fraction(rng.randint(0, 24), rng.choice([1, 1, 2])) for _ in range(count)]
+    amt = [ksum[i] + (n - k) * share[i] for i in range(count)] if rule == "divide" else share
+    c = rng.random()
+    tags = ["vars"]
+    if c < 0.45:
+        calls.append((P, amt))
+        tags.append("doc:long-last")
+    elif c < 0.75:
+        # the long period first; the pieces written after it are already known when they arrive
+        later = []
+        for q, v in calls:
+            later.append((q, v))
+        free = [q for q in subs if q not in pre]
+        q = rng.choice(free)
+        same = rng.random() < 0.5
+        if rule == "divide":
+            # P alone spreads amt over ALL pieces: every piece then holds amt / n
+            amt = [n * share[i] for i in range(count)]
+            calls = [(P, amt), (q, list(share) if same else [share[0] + 1] + list(share[1:]))]
+        else:
+            calls = [(P, amt), (q, list(amt) if same else [amt[0] + 1] + list(amt[1:]))]
+            same = True                    # the dispatch rule never refuses: the later value is ignored
+        tags.append("doc:long-first:" + ("same" if same else "contradiction"))
+    else:
+        rng.shuffle(calls)
+        calls.insert(rng.randint(0, len(calls)), (P, amt))
+        tags.append("doc:shuffled")
+    if simulate(du, rule, "num", count, calls) is None:      # a share would leave the lattice: pieces first
+        calls = [(q, v) for q, v in calls if q != P] + [(P, amt)]
+        tags[-1] = "doc:long-last"
+    steps = [("S", q, "f", v) for q, v in calls] + [("K",), ("A", P), ("K",)]
+    return build_line(du, rule, "num:v", count, steps, tags=tags)
+
+
+def undated_history(rng: random.Random):
+    """what the YAML test runner does with `period: <P>` and `input: {variable: value}`: the builder's default
+    period names the long period and the value comes without period (full and short form); then pieces and
+    the long period again by direct calls"""
+    du = rng.choice(["day", "month", "month", "year"])
+    rule = "divide" if rng.random() < 0.7 else "dispatch"
+    count = rng.choice([1, 2, 3])
+    route = rng.choice(["b", "v", "b:h"])
+    while True:
+        P = _doc_period(long_period(rng, du, "quick"))
+        subs = tiles(P, du)
+        if len(subs) <= 60 and 1000 <= P[1][0] <= 9000:
+            break
+    n = len(subs)
+    share = [Fraction(rng.randint(0, 24), rng.choice([1, 1, 2])) for _ in range(count)]
+    amt = [n * x for x in share] if rule == "divide" else share
+    q = rng.choice(subs)
+    again = list(share) if rng.random() < 0.5 else [share[0] + 1] + list(share[1:])
+    steps = [("S", P, "f", amt), ("K",), ("A", P), ("S", q, _mode(rng, _is_integral(again)), again), ("K",),
+             ("S", P, _mode(rng, _is_integral(amt)), amt), ("K",), ("A", P)]
+    return build_line(du, rule, f"num:{route}:u", count, steps, tags=("undated", f"{P[0]}>{du}"))
+
+
+def second_call_history(rng: random.Random):
+    """the long input given AGAIN (same amount: accepted, nothing changes; another amount: refused), a piece
+    given again after the long input (accepted only when it repeats its share), `calculate` on single pieces
+    before (an unknown piece is then cached with the default, i.e. known, when the long input arrives) and
+    after it, the whole read again from a clone, and the clone given the next long period."""
+    du = rng.choice(["day", "month", "month", "year"])
+    rule = "divide" if rng.random() < 0.75 else "dispatch"
+    kind = "int" if rng.random() < 0.15 else "num"
+    count = rng.choice([1, 2, 3])
+    group = rng.random() < 0.2
+    disk = not group and rng.random() < 0.12       # every array forced to the disk storage (then no clone: F-C13-disk)
+    while True:
+        P = long_period(rng, du, "quick")
+        subs = tiles(P, du)
+        if 2 <= len(subs) <= 62 and 1000 <= P[1][0] <= 9000:
+            break
+    n = len(subs)
+    k = min(n - 2, rng.choice([0, 1, 2]))
+    pre = rng.sample(subs, max(k, 0))
+    steps = []
+    ksum = [Fraction(0)] * count
+    for q in pre:
+        v = [Fraction(rng.randint(0, 30)) for _ in range(count)]
+        steps += [("S", q, _mode(rng, True, kind), v)]
+        ksum = [a + b for a, b in zip(ksum, v)]
+    known = set(pre)
+    tags = ["second-call"]
+    if rng.random() < 0.4:                       # calculate on a piece nobody set: cached with the default
+        q = rng.choice([x for x in subs if x not in known])
+        steps += [("C", q), ("K",)]
+        known.add(q)
+        tags.append("calc-before")
+    unk = n - len(known)
+    share = [Fraction(rng.randint(0, 24), 1 if kind == "int" else rng.choice([1, 1, 2])) for _ in range(count)]
+    amt = [ksum[i] + unk * share[i] for i in range(count)] if rule == "divide" else share
+    if unk == 0:
+        amt = list(ksum) if rule == "divide" else share
+    steps += [("K",), ("S", P, _mode(rng, _is_integral(amt), kind), amt), ("K",)]
+    for _ in range(rng.choice([1, 2, 3])):
+        c = rng.random()
+        if c < 0.3:
+            steps += [("S", P, _mode(rng, _is_integral(amt), kind), amt), ("K",)]
+            tags.append("again:same")
+        elif c < 0.55:
+            other = list(amt)
+            other[rng.randrange(count)] += rng.choice([1, -1, 7])
+            steps += [("S", P, _mode(rng, _is_integral(other), kind), other), ("K",)]
+            tags.append("again:other")
+        elif c < 0.8:
+            q = rng.choice(subs)
+            v = list(share) if q not in known else [Fraction(rng.randint(0, 30)) for _ in range(count)]
+            if rng.random() < 0.4:
+                v = [x + 1 for x in v]
+            steps += [("S", q, _mode(rng, _is_integral(v), kind), v), ("K",)]
+            tags.append("piece-again")
+        else:
+            q = rng.choice(subs)
+            steps += [("C", q), ("K",)]
+    if n <= 31 and rng.random() < 0.5:
+        steps += [("C", q) for q in subs]        # the sum taken by hand
+        tags.append("calc-all")
+    steps += [("Z" if rng.random() < 0.3 else "A", P), ("K",)]
+    if not disk and rng.random() < 0.6:
+        steps += [("X",), ("K",), ("Z" if rng.random() < 0.3 else "A", P), ("K",)]
+        nxt = (P[0], addm_t(subs[-1][1], du, 1), P[2])
+        if tiles(nxt, du) and len(tiles(nxt, du)) <= 62:
+            m = len(tiles(nxt, du))
+            a2 = [m * share[i] for i in range(count)] if rule == "divide" else share
+            steps += [("S", nxt, _mode(rng, _is_integral(a2), kind), a2), ("K",), ("A", nxt), ("A", P)]
+        if n <= 31 and rng.random() < 0.3:
+            steps += [("C", q) for q in subs]
+        steps += [("K",)]
+    if rng.random() < 0.4:
+        steps = decorate(rng, du, kind, count, steps)
+    return build_line(du, rule, kind + (":h" if group else "") + (":d" if disk else ""), count, steps, tags=tags + [f"{P[0]}>{du}"])
+
+
+def week_in_days_history(rng: random.Random):
+    """a DAY variable given week / weekday periods (tiled exactly by days, whatever the first day): claimed"""
+    rule = "divide" if rng.random() < 0.6 else "dispatch"
+    count = rng.choice([1, 2])
+    y = rng.choice([2015, 2018, 2020, 2021, 2024, 2026])
+    d = dt.date(y, rng.choice([1, 2, 2, 12, 12, 6]), rng.choice([1, 20, 26, 28]))
+    if rng.random() < 0.6:
+        d -= dt.timedelta(days=d.weekday())
+    P = (rng.choice(["week", "week", "weekday"]), (d.year, d.month, d.day), rng.choice([1, 1, 2, 3, 5]))
+    subs = tiles(P, "day")
+    n = len(subs)
+    k = min(n, rng.choice([0, 1, 2, n - 1]))
+    pre = rng.sample(subs, k)
+    steps = []
+    ksum = [Fraction(0)] * count
+    for q in pre:
+        v = [Fraction(rng.randint(0, 30), rng.choice([1, 2])) for _ in range(count)]
+        steps += [("S", q, "f", v), ("K",)]
+        ksum = [a + b for a, b in zip(ksum, v)]
+    share = [Fraction(rng.randint(0, 24), rng.choice([1, 1, 2, 4])) for _ in range(count)]
+    amt = [ksum[i] + (n - k) * share[i] for i in range(count)] if rule == "divide" else share
+    steps += [("S", P, _mode(rng, _is_integral(amt)), amt), ("K",), ("A", P), ("K",)]
+    if P[0] == "week" and rng.random() < 0.5:
+        Q = ("day", P[1], n)                    # the same days as a day range
+        steps += [("S", Q, "f", amt if rule == "divide" else share), ("K",), ("A", Q)]
+    if rng.random() < 0.4:
+        steps = decorate(rng, "day", "num", count, steps)
+    return build_line("day", rule, "num", count, steps, tags=("week-in-days", f"{P[0]}>day"))
 
 
 def garbage_history(rng: random.Random):
@@ -1142,22 +1545,27 @@ MALFORMED = [
     "sin month divide num 1 S|month/2018,1,1/1|f|a", "sin month divide num 1 S|month/2018,1,1/1|f|1/0",
     "sin month divide num 1 S|month/2018,1,1/1|f|3; K", "sin month divide num 1 G|month/2018,1,1", "sin month divide num 1 K|x",
     "sin month divide num 1 A|quarter/2018,1,1/1", "sin month divide num 2 S|month/2018,1,1/x|f|3;4",
-    "sin month divide num:q 1 K", "sin month divide num:e2018,6 1 K", "sin month divide complex:n 1 K", "sin month divide num 1 G|month/2018,1,1/1|s|s",
+    "sin month divide num:q 1 K", "sin month divide num:bu 1 K", "sin month divide num 1 X|1", "sin month divide num 1 M", "sin month divide num 1 M|x", "sin month divide num 1 Z", "sin month divide num 1 C", "sin month divide num 1 C|month/2018,1/1", "sin month divide num:e2018,6 1 K", "sin month divide complex:n 1 K", "sin month divide num 1 G|month/2018,1,1/1|s|s",
 ]
 
 
 def generate(rng: random.Random, tier: str):
-    n = 6000 if tier == "quick" else 100000
+    n = 5000 if tier == "quick" else 90000
     out = []
     for _ in range(n):
         out += history(rng, tier)
-    for _ in range(n // 5):
+    for _ in range(n // 6):
         out.append(reuse_history(rng, tier))
     for _ in range(n // 10):
         out.append(opaque_history(rng))
+        out.append(second_call_history(rng))
     for _ in range(n // 12):
         out.append(end_history(rng))
         out.append(builder_history(rng))
+        out.append(vars_history(rng))
+    for _ in range(n // 25):
+        out.append(week_in_days_history(rng))
+        out.append(undated_history(rng))
     for _ in range(n // 40):
         out.append(neutral_history(rng))
         out.append(garbage_history(rng))
@@ -1203,6 +1611,27 @@ def corpus():
         build_line("day", "divide", "num", 2, [("S", ("day", (2020, 2, 29), 1), "f", [F(1), F(3)]), ("K",), ("S", ("month", (2020, 2, 1), 1), "f", [F(29), F(59)]), ("K",), ("A", ("month", (2020, 2, 1), 1))], tags=("corpus",)),
         build_line("month", "divide", "num", 1, [("S", ("year", (2018, 3, 1), 1), "f", [F(24)]), ("K",), ("S", ("year", (2018, 1, 1), 2), "f", [F(72)]), ("K",), ("A", ("year", (2018, 3, 1), 1)), ("A", ("year", (2018, 1, 1), 2))], tags=("corpus",)),
         build_line("year", "dispatch", "num", 1, [("S", ("year", (2019, 1, 1), 1), "f", [F(7)]), ("K",), ("S", ("year", (2018, 1, 1), 3), "f", [F(2)]), ("K",)], tags=("corpus",)),
+        # round 2: the year written BEFORE its month in a situation document (the builder consumes the month first) ...
+        build_line("month", "divide", "num:b", 2, [("S", Y18, "f", [F(27), F(30)]), ("S", feb, "f", [F(5), F(8)]), ("K",), ("A", Y18)], tags=("corpus", "doc-order")),
+        # ... and in the short form (document order: the February value arrives when February already holds its share)
+        build_line("month", "divide", "num:v", 2, [("S", Y18, "f", [F(27), F(30)]), ("S", feb, "f", [F(5), F(8)]), ("K",), ("A", Y18)], tags=("corpus", "doc-order")),
+        build_line("month", "divide", "num:v", 2, [("S", Y18, "f", [F(24), F(36)]), ("S", feb, "f", [F(2), F(3)]), ("K",), ("A", Y18)], tags=("corpus", "doc-order")),
+        build_line("month", "divide", "num:v", 1, [("S", feb, "f", [F(5)]), ("S", Y18, "f", [F(27)]), ("K",), ("A", Y18)], tags=("corpus", "doc-order")),
+        # a month variable of a group entity (2 households, 3 persons), through the builder and by calls
+        build_line("month", "divide", "num:b:h", 2, [("S", Y18, "f", [F(27), F(30)]), ("S", feb, "f", [F(5), F(8)]), ("K",), ("A", Y18)], tags=("corpus", "group")),
+        build_line("month", "divide", "num:h", 2, [("S", feb, "f", [F(5), F(8)]), ("K",), ("S", Y18, "g", [F(27), F(30)]), ("K",), ("A", Y18), ("S", Y18, "f", [F(1), F(2), F(3)]), ("K",)], tags=("corpus", "group")),
+        # the long input twice (same amount / another amount), calculate on a piece nobody set BEFORE the long input
+        # (the default is cached: the piece is known when the year arrives), the sum by hand, a clone
+        build_line("month", "divide", "num", 1, [("C", ("month", (2018, 3, 1), 1)), ("K",), ("S", Y18, "f", [F(22)]), ("K",), ("S", Y18, "f", [F(22)]), ("K",), ("S", Y18, "f", [F(23)]), ("K",),
+                                                 *[("C", ("month", (2018, m, 1), 1)) for m in range(1, 13)], ("A", Y18), ("X",), ("K",), ("A", Y18),
+                                                 ("S", ("year", (2019, 1, 1), 1), "f", [F(12)]), ("K",), ("A", ("year", (2019, 1, 1), 1))], tags=("corpus", "second-call")),
+        # the caller overwrites its own float32 array after a divide input, then the array calculate_add returned (also over ONE piece)
+        build_line("month", "divide", "num", 2, [("S", feb, "f", [F(5), F(8)]), ("K",), ("S", Y18, "g@7", [F(27), F(30)]), ("K",), ("M", "7"), ("K",),
+                                                 ("Z", Y18), ("K",), ("Z", feb), ("K",), ("A", Y18)], tags=("corpus", "aliasing")),
+        build_line("month", "dispatch", "num", 1, [("S", Y18, "F@7", [F(10)]), ("K",), ("M", "7"), ("K",), ("Z", ("month", (2018, 3, 1), 1)), ("K",), ("A", Y18)], tags=("corpus", "aliasing")),
+        # a day variable given a week that starts on a Wednesday, then the same seven days as a day range
+        build_line("day", "divide", "num", 1, [("S", ("day", (2019, 1, 3), 1), "f", [F(2)]), ("K",), ("S", ("week", (2019, 1, 2), 1), "f", [F(14)]), ("K",), ("A", ("week", (2019, 1, 2), 1)),
+                                               ("S", ("day", (2019, 1, 2), 7), "f", [F(14)]), ("K",)], tags=("corpus", "week-in-days")),
     ]
     return out
 
@@ -1238,6 +1667,18 @@ def enumerate_thorough():
             R = ("year", (y, m, 1), 1)
             for rule in ("divide", "dispatch"):
                 out.append(build_line("month", rule, "num", 1, [("S", R, "I", [F(36)]), ("K",), ("A", R)], tags=("enum", "rolling")))
+    # ONE document with the year, a quarter and two months: every order of its keys, through the builder (always
+    # accepted: consumed shortest first) and in the short form (accepted only when nothing arrives after a period
+    # that contains it, unless it repeats what is stored)
+    import itertools
+    feb, jul, q1 = ("month", (2018, 2, 1), 1), ("month", (2018, 7, 1), 1), ("month", (2018, 1, 1), 3)
+    for entries in ([(Y, [F(28)]), (feb, [F(5)]), (jul, [F(3)])],
+                    [(Y, [F(28)]), (feb, [F(5)]), (jul, [F(3)]), (q1, [F(9)])],
+                    [(Y, [F(24)]), (feb, [F(2)]), (q1, [F(6)])]):
+        for perm in itertools.permutations(entries):
+            for route in ("b", "v", "b:h"):
+                st = [("S", q, "f", v) for q, v in perm] + [("K",), ("A", Y), ("A", q1), ("K",)]
+                out.append(build_line("month", "divide", "num:" + route, 1, st, tags=("enum", "doc-orders")))
     return out
 
 
@@ -1252,7 +1693,7 @@ def neighbours(case: Case):
         steps = []
         ok = True
         for op in ops:
-            if op[0] == "K":
+            if op[0] in ("K", "X", "M"):
                 steps.append(op)
                 continue
             p = op[1]
@@ -1290,7 +1731,14 @@ PROP = Prop(
           "scalar / 0-dim array / expression string; 4 % of the short ones run with every array forced to the disk storage. Further streams: bool / date / "
           "str / enum variables with the dispatch rule (items as lists, exact-dtype arrays, names, codes); variables with an `end` placed before / at the "
           "first day / inside / at the last day / after the long period (inputs through Simulation.set_input and Holder.set_input); situation documents "
-          "consumed by SimulationBuilder (buffered inputs, shortest first, with and without `end`); neutralised variables; items `_to_array` cannot "
+          "consumed by SimulationBuilder (ONE document whose keys are written in any order — year before / after / between its months —, buffered and "
+          "consumed shortest first by the builder: the model has the builder's sort; with and without `end`; the same pieces under two spellings with equal "
+          "or contradicting amounts; also on a household variable in a simulation with one person more than households); short-form documents "
+          "{variable: {period: values}} through build_from_dict -> build_from_variables (consumed in document order: a year written before one of its "
+          "months is refused unless the month repeats its share); second calls: the long input given again with the same / another amount, a piece given "
+          "again after it, `calculate` on a piece nobody set BEFORE the long input (cached default = known piece), `calculate` on every piece afterwards "
+          "(the sum taken by hand must be the amount), everything read again from `simulation.clone()` and the clone given the next long period; DAY "
+          "variables given week / weekday periods starting on any day (tiled exactly by days: claimed); neutralised variables; items `_to_array` cannot "
           "convert and scalars for several entities (refused). "
           "Plus variables without rule (routing errors, binding) and a non-binding stream (week/weekday/eternity variables, unaligned or shorter periods, wrong length, ADD first) and "
           "malformed lines. Non-trivial = at least one accepted input on a period longer than the definition period."),
@@ -1299,6 +1747,8 @@ PROP = Prop(
         "claim domain: day/month/year variables with the divide or dispatch rule, periods of the day/month/year family aligned on the definition period (years and months start on the 1st; year variables on 1 January), sizes >= 1, years < 9990; variables without rule are binding for the correspondence only (refusal of anything but one definition period); week-family and eternal variables, unaligned or shorter periods, wrong lengths are compared but not binding",
         "the walk stopping early at year 9999 (pendulum overflow in the middle of the dispatch loop) leaves a partially filled store in the code and an unchanged one in the model; not generated",
         "variables have no formula; neutralised variables and inputs that start after a variable's `end` are binding for the correspondence only (the input is ignored: the statement does not speak of them); on-disk storage is run through but not modelled (it is not observable)",
+        "documents (options b, v): the oracle only asks that every amount of an ACCEPTED document is what the sum over its period returns; which documents are accepted (the builder's order, the short form's document order) is the model's business (binding correspondence)",
+        "a document names periods by their text: `month:Y-M:12` has the text of the year and is generated as the year",
         "the harness never mutates an object it passed or an array it got back: aliasing of stored arrays with the caller's exact-dtype array (dispatch rule, variables without rule) is outside the statement",
         "numpy conversions (asarray/astype, float32 true division, in-place subtract, sum of arrays) and pendulum date arithmetic are modelled, tied by this correspondence",
     ],
@@ -1307,5 +1757,6 @@ PROP = Prop(
         "the full statement is false of the code (finding F-C16c: every share is truncated on storage, 100 over 12 months sums to 96)",
     ],
     exhaustive_note=("thorough: month variable x year 2018 x all 4096 subsets of pre-set months x both rules; day variable x every month of "
-                     "2019-2020 x (no / each single pre-set day) x both rules; month variable x every rolling year starting in 2019-2020"),
+                     "2019-2020 x (no / each single pre-set day) x both rules; month variable x every rolling year starting in 2019-2020; "
+                     "one document {year, quarter, two months} x every order of its keys x builder / short form / household variable"),
 )
